@@ -284,7 +284,7 @@ class StridedInterval:
         results = []
 
         if self.stride == 0 and n > 0:
-            results.append(self.lower_bound)
+            results.append(self._unsigned_to_signed(self.lower_bound, self.bits) if signed else self.lower_bound)
         else:
             bounds = self._signed_bounds() if signed else self._unsigned_bounds()
 
